@@ -56,6 +56,14 @@ def run(pid, tier, seed, replay=None):
             scripts.append(('tiny', cid, yvlib.simple_case(cid, gch.as_dict(), 0, cfg, gen.codes_of(gch, w)),
                             {'grammar': yvlib.grammar_text(gch.as_dict())[:300], 'tokens': ' '.join(w), 'cfg': cfg}))
     P = ca.pool()
+    # every definition of the pool twice (and once over every other one) on the same object: emptied tables, slot by slot
+    for di, d in enumerate(P):
+        for dj in ([di] + ([rng.randrange(len(P))] if quick else list(range(len(P))))):
+            L = ['CASE twice%d_%d' % (dj, di), 'NEW 0'] + ca.define_lines(0, P[dj]) + ['ERR 0'] + ca.define_lines(0, d) + ['ERR 0']
+            for w in d['inputs'][:2]:
+                L.append('PARSE 0 0 %d %s' % (len(w), ' '.join(map(str, w))))
+            L += ['ERR 0', 'FREEG 0', 'END']
+            scripts.append(('twice', 'twice%d_%d' % (dj, di), '\n'.join(L), {'history': L[:8]}))
     for hi in range(150 if quick else 1500):
         h = ca.Hist(rng, P, hi, 14)
         scripts.append(('history', 'h%d' % hi, h.script(), {'history': h.lines[:12]}))
